@@ -411,7 +411,11 @@ def do_replay(pid, path):
     check_repo_import()
     mod = load_module(pid)
     rp = json.load(open(path))
-    sub = [s for s in mod.SUBS if s.name == rp["sub"]][0]
+    cands = [s for s in mod.SUBS if s.name == rp["sub"]] or [s for s in mod.SUBS if s.group == rp["sub"]]
+    if not cands:
+        say(f"HARNESS-ERROR: replay names sub '{rp['sub']}' which {pid} does not have")
+        return 2
+    sub = cands[0]
     st = Stats()
     try:
         r = execute(sub, rp["case"], st)
@@ -450,7 +454,11 @@ def main(argv=None):
     except ValueError:
         seed = 1
     if a.replay:
-        return do_replay(pid, a.replay)
+        try:
+            return do_replay(pid, a.replay)
+        except BaseException:  # noqa
+            say("HARNESS-ERROR: replay failed\n" + traceback.format_exc())
+            return 2
     t0 = time.time()
     jobs = a.jobs or int(os.environ.get("VERIF_JOBS", "0") or 0) or (8 if a.tier == "quick" else 16)
     try:
